@@ -33,18 +33,21 @@ func init() {
 // "size"; calls of the given normalisers become symbols z:<argument>.
 func collectionSymEnv(c *Ctx, info *types.Info, fd *ast.FuncDecl, normalisers map[*types.Func]bool) *symEnv {
 	recv := recvObj(info, fd)
-	env := &symEnv{info: info}
+	env := &symEnv{info: info, recvs: map[types.Object]bool{}}
+	if recv != nil {
+		env.recvs[recv] = true
+	}
 	env.base = Cube{linSym("size").scale(-1)} // size >= 0
 	env.resolve = func(e ast.Expr) (Val, bool) {
 		call, ok := e.(*ast.CallExpr)
 		if !ok {
 			return Val{}, false
 		}
-		if (isBuiltinCall(info, call, "len")) && len(call.Args) == 1 && recvRooted(info, call.Args[0], recv) {
+		if (isBuiltinCall(info, call, "len")) && len(call.Args) == 1 && env.isRecvRooted(call.Args[0]) {
 			return Val{Lin: linSym("size")}, true
 		}
 		if rx, name, _, ok := methodCall(call); ok {
-			if name == "GetSize" && len(call.Args) == 0 && recvRooted(info, rx, recv) {
+			if name == "GetSize" && len(call.Args) == 0 && env.isRecvRooted(rx) {
 				return Val{Lin: linSym("size")}, true
 			}
 			if fn := calleeOf(info, call); fn != nil && normalisers[fn.Origin()] && len(call.Args) == 1 {
